@@ -233,6 +233,30 @@ void fibre_eventq_release(fibre_eventq_t *evtq, void *evtp);
  */
 void fibre_scheduler_main_loop(void);
 
+#ifdef LIBRFN_VERIF
+/* Verification hooks (compiled only with -DLIBRFN_VERIF; see /verif).
+ * fibre_verif_reset() re-initialises the static scheduler state so that many
+ * histories can be run in one process; fibre_verif_snapshot() copies out the
+ * scheduler's queues for comparison with the specification.
+ */
+#define FIBRE_VERIF_MAX 32
+typedef struct {
+	fibre_t *current;
+	int state;
+	uint32_t now;
+	unsigned int nrunq;
+	fibre_t *runq[FIBRE_VERIF_MAX];
+	unsigned int ntimerq;
+	fibre_t *timerq[FIBRE_VERIF_MAX];
+	unsigned int natomic;
+	fibre_t *atomicq[FIBRE_VERIF_MAX];
+	unsigned int num_free, sendp, receivep, full_flags, taint_flags;
+} fibre_verif_snapshot_t;
+void fibre_verif_reset(void);
+void fibre_verif_snapshot(fibre_verif_snapshot_t *s);
+messageq_t *fibre_verif_atomic_runq(void);
+#endif
+
 /*! @} */
 
 #endif // RF_FIBRE_H_
